@@ -1,7 +1,8 @@
 (* C07 (round 2) -- the real-valued part of the distribution pipeline, by Flocq's correctness theorems:
    generate_canonical<double,53> is a finite double in [0,1) and std::bernoulli_distribution honours
    boolean(0) = false, boolean(1) = true, for EVERY 64-bit engine state. *)
-From Coq Require Import ZArith Reals Lia Lra Bool.
+From Coq Require Import ZArith Reals Lia Lra Bool List PeanoNat.
+Import ListNotations.
 From Flocq Require Import Core IEEE754.BinarySingleNaN.
 From Flocq Require Import Plus_error Mult_error.
 From VV Require Import Base.F64 Rng.RngDefs Rng.RngProofs Rng.DistDefs.
@@ -460,4 +461,67 @@ Proof.
   set (v := fst (between_real lo hi st)) in *. unfold F64.is_finite. split; [|split; [|exact Fv]].
   - unfold F64.leb. rewrite (cmp_finite lo v Flo Fv). destruct (Rcompare_spec (B2R lo) (B2R v)); try reflexivity. lra.
   - unfold F64.leb. rewrite (cmp_finite v hi Fv Fhi). destruct (Rcompare_spec (B2R v) (B2R hi)); try reflexivity. lra.
+Qed.
+
+(* ------------------------------------------------------------ std::discrete_distribution returns an existing index *)
+Lemma lower_bound_loop_lt : forall cp val n, n = length cp -> (1 <= n)%nat ->
+  F64.ltb (nth (n - 1) cp F64.nan) val = false ->
+  forall fuel first len, (first + len <= n)%nat -> (first <= n - 1)%nat ->
+  (lower_bound_loop fuel cp val first len <= n - 1)%nat.
+Proof.
+  intros cp val n Hn Hn1 Hlast. induction fuel as [|f IH]; intros first len H1 H2; [exact H2|].
+  cbn [lower_bound_loop]. destruct len as [|len']; [exact H2|].
+  set (len := S len') in *. set (half := Nat.div2 len).
+  assert (Hh : (half < len)%nat) by (apply Nat.lt_div2; unfold len; lia).
+  destruct (F64.ltb (nth (first + half) cp F64.nan) val) eqn:E.
+  - assert (first + half <> n - 1)%nat by (intro Q; rewrite Q, Hlast in E; discriminate E).
+    apply IH; lia.
+  - apply IH; lia.
+Qed.
+
+Lemma set_last_length : forall l v, length (set_last l v) = length l.
+Proof. induction l as [|x [|y r] IH]; intro v; try reflexivity. cbn [set_last length] in *. rewrite IH. reflexivity. Qed.
+
+Lemma set_last_nth : forall l v d, l <> nil -> nth (length l - 1) (set_last l v) d = v.
+Proof.
+  induction l as [|x [|y r] IH]; intros v d Hl; [contradiction|reflexivity|].
+  change (set_last (x :: y :: r) v) with (x :: set_last (y :: r) v).
+  replace (length (x :: y :: r) - 1)%nat with (S (length (y :: r) - 1)) by (cbn [length]; lia).
+  cbn [nth]. apply IH. discriminate.
+Qed.
+
+Lemma partial_sums_length : forall l acc, length (partial_sums acc l) = length l.
+Proof. induction l as [|x r IH]; intro acc; [reflexivity|]. cbn [partial_sums length]. rewrite IH. reflexivity. Qed.
+
+(* std::discrete_distribution<unsigned> over at least two weights returns an index below their number,
+   for every 64-bit engine state *)
+Lemma discrete_in_range : forall ws st, wf st -> (2 <= length ws)%nat ->
+  (0 <= fst (discrete ws st) < Z.of_nat (length ws))%Z.
+Proof.
+  intros ws st Hw Hlen. unfold discrete.
+  destruct ws as [|w0 [|w1 wr]]; try (cbn in Hlen; lia).
+  assert (Ecp : exists p0 r, discrete_cp (w0 :: w1 :: wr) = set_last (p0 :: partial_sums p0 r) (F64.of_Z 1) /\
+                              length (p0 :: r) = length (w0 :: w1 :: wr)).
+  { unfold discrete_cp. set (pr := map F64.of_Z (w0 :: w1 :: wr)).
+    set (sum := fold_left F64.add pr F64.zero).
+    destruct (map (fun x => F64.div x sum) pr) as [|p0 r] eqn:E.
+    - apply (f_equal (@length _)) in E. rewrite map_length in E. unfold pr in E. rewrite map_length in E. discriminate E.
+    - exists p0, r. split; [reflexivity|]. rewrite <- E, map_length. unfold pr. rewrite map_length. reflexivity. }
+  destruct Ecp as (p0 & r & Ecp & El). rewrite Ecp.
+  remember (set_last (p0 :: partial_sums p0 r) (F64.of_Z 1)) as cp eqn:Hcp.
+  assert (Lcp : length cp = length (w0 :: w1 :: wr)).
+  { rewrite Hcp, set_last_length. cbn [length]. rewrite partial_sums_length. cbn [length] in El. exact El. }
+  assert (Hone : forall d, nth (length cp - 1) cp d = F64.of_Z 1).
+  { intro d. rewrite Hcp. rewrite set_last_length. apply set_last_nth. discriminate. }
+  destruct cp as [|c0 cr]; [cbn in Lcp; discriminate Lcp|].
+  pose proof (canonical_unit st Hw) as (Fu & [U0 U1] & _). destruct (canonical st) as [u st']. cbn [fst] in *.
+  unfold lower_bound. set (L := c0 :: cr) in *.
+  assert (Hlast : F64.ltb (nth (length L - 1) L F64.nan) u = false).
+  { rewrite Hone. destruct B2R_one as [O1 O2].
+    unfold F64.ltb. rewrite (cmp_finite (F64.of_Z 1) u O2 Fu), O1.
+    destruct (Rcompare_spec 1 (B2R u)); try reflexivity. lra. }
+  assert (L1 : (1 <= length L)%nat) by (rewrite Lcp; cbn [length]; lia).
+  pose proof (lower_bound_loop_lt L u (length L) eq_refl L1 Hlast
+                (S (length L)) 0%nat (length L) ltac:(lia) ltac:(lia)) as H.
+  lia.
 Qed.
